@@ -119,6 +119,14 @@ def make_spec(seed, rng, k=None, mode=None, N=None, v=None):
         knobs['stdout_stall'] = rng.choice([0.003, 0.05, 1.0])   # ... or block for a while
     if rng.random() < 0.25:
         knobs['cpus'] = rng.choice([1, 2])  # fewer CPUs than -j must not serialise the layers
+    if seed % 7 == 3 and len(sel) >= 2:
+        # one layer's subprocess cannot be started: the blocks of all the others still appear,
+        # in order, and the others still run side by side (what the failed layer would have
+        # run is of course missing: the comparison with the sequential run is not made)
+        srng = random.Random(seed ^ 0xC06)
+        plan.append({'site': 'channel', 'ident': srng.choice(sorted(sel)), 'a': 'spawn_fail',
+                     'errno': srng.choice(['EAGAIN', 'ENOMEM']), 'exc': 'OSError'})
+        sched.pop('strict', None)    # (a strict completion order waits for every child)
     if seed % 6 == 1:
         knobs['script_link'] = True     # the runner script was started through a symbolic link
     return {'property': ID, 'seed': seed, 'world': world, 'plan': _ws.order_plan(plan),
@@ -186,7 +194,7 @@ def run(spec, ctx):
     if spec['sched'].get('barrier'):
         # (a minimised or hand-written spec may ask for more children at the barrier than the
         # world has layers: that barrier could never open)
-        nsel = len(m.select({}))
+        nsel = len(m.select({})) - sum(1 for e in spec['plan'] if e.get('a') == 'spawn_fail')
         spec = dict(spec, sched=dict(spec['sched'],
                                      barrier=max(1, min(spec['sched']['barrier'], N, nsel))))
     spec0 = dict(spec, opt=base_opt, plan=[e for e in spec['plan']
@@ -204,18 +212,19 @@ def run(spec, ctx):
         viols.append(C.viol('C06/run-aborted/%s' % _ws.frames_sig(par.raised or base.raised),
                             repr(par.raised or base.raised)))
     else:
-        if outcome_map(T0) != outcome_map(T1):
+        faulty = any(e['site'] == 'channel' for e in spec['plan'])
+        if not faulty and outcome_map(T0) != outcome_map(T1):
             viols.append(C.viol('C06/tests-or-outcomes-differ',
                                 'sequential %r vs -j%d %r' % (outcome_map(T0), N,
                                                               outcome_map(T1))))
-        if bool(base.verdict) != bool(par.verdict):
+        if not faulty and bool(base.verdict) != bool(par.verdict):
             viols.append(C.viol('C06/verdict-differs', '%r vs %r' % (base.verdict, par.verdict)))
         r0, r1 = base.runner, par.runner
         for key in ('failures', 'errors'):
-            if sorted(r0[key]) != sorted(r1[key]):
+            if not faulty and sorted(r0[key]) != sorted(r1[key]):
                 viols.append(C.viol('C06/%s-list-differs' % key,
                                     'sequential %r vs -j%d %r' % (r0[key], N, r1[key])))
-        if r0['ran'] != r1['ran']:
+        if not faulty and r0['ran'] != r1['ran']:
             viols.append(C.viol('C06/ran-differs', '%r vs %r' % (r0['ran'], r1['ran'])))
         # blocks
         rawtext = ''.join(t for tag_, t in par.out if tag_ == 'O')
